@@ -21,7 +21,10 @@ pub fn install_quiet_panic_hook() {
         } else {
             "<non-string panic payload>".to_string()
         };
-        let loc = info.location().map(|l| format!("{}:{}", l.file(), l.line())).unwrap_or_default();
+        let loc = info
+            .location()
+            .map(|l| format!("{}:{}", l.file(), l.line()))
+            .unwrap_or_default();
         let full = format!("{} at {}", msg, loc);
         if full.contains("harness:") {
             eprintln!("{}", full);
@@ -53,12 +56,17 @@ pub fn opt_bytes_from(step: &Step, i: usize) -> HResult<Option<Vec<u8>>> {
     match step.args.get(i) {
         Some(Arg::B(b)) => Ok(Some(b.clone())),
         Some(Arg::S(s)) if s == "none" => Ok(None),
-        other => herr(format!("step {}: arg {} should be bytes or none, got {:?}", step.name, i, other)),
+        other => herr(format!(
+            "step {}: arg {} should be bytes or none, got {:?}",
+            step.name, i, other
+        )),
     }
 }
 
 pub fn header_by_idx(i: usize) -> HResult<MHeader> {
-    header_palette().get(i).cloned().ok_or_else(|| crate::trace::HarnessError(format!("header palette index {} out of range", i)))
+    header_palette().get(i).cloned().ok_or_else(|| {
+        crate::trace::HarnessError(format!("header palette index {} out of range", i))
+    })
 }
 
 /// A value argument is either a palette index (int) or the harness CBOR encoding of the value.
@@ -66,16 +74,25 @@ pub fn value_from_arg(step: &Step, i: usize) -> HResult<MValue> {
     match step.args.get(i) {
         Some(Arg::I(_)) => value_by_idx(step.usize(i)?),
         Some(Arg::B(b)) => {
-            let it = crate::refcbor::read_exact(b).map_err(|e| crate::trace::HarnessError(format!("value argument is not CBOR: {:?}", e)))?;
+            let it = crate::refcbor::read_exact(b).map_err(|e| {
+                crate::trace::HarnessError(format!("value argument is not CBOR: {:?}", e))
+            })?;
             Ok(MValue::from_item(&it))
         }
-        other => herr(format!("step {}: arg {} should be a value, got {:?}", step.name, i, other)),
+        other => herr(format!(
+            "step {}: arg {} should be a value, got {:?}",
+            step.name, i, other
+        )),
     }
 }
 
 /// Seeded value of arbitrary shape (scalars of every kind, short arrays and maps, tags).
 pub fn gen_any_value(rng: &mut Rng, depth: usize) -> MValue {
-    let k = if depth >= 3 { rng.below(7) } else { rng.below(10) };
+    let k = if depth >= 3 {
+        rng.below(7)
+    } else {
+        rng.below(10)
+    };
     match k {
         0 => MValue::Int((rng.next_u64() as i64 >> rng.below(64)) as i128),
         1 => {
@@ -87,14 +104,27 @@ pub fn gen_any_value(rng: &mut Rng, depth: usize) -> MValue {
         4 => MValue::Null,
         5 => MValue::Int(rng.below(25) as i128 - 5),
         6 => MValue::Float([0.0f64, 1.5, -2.25, 1e300][rng.below(4)].to_bits()),
-        7 => MValue::Array((0..rng.below(4)).map(|_| gen_any_value(rng, depth + 1)).collect()),
-        8 => MValue::Map((0..rng.below(3)).map(|i| (MValue::Int(i as i128), gen_any_value(rng, depth + 1))).collect()),
-        _ => MValue::Tag(*rng.pick(&[0u64, 1, 2, 24, 32, 37, 55799]), Box::new(gen_any_value(rng, depth + 1))),
+        7 => MValue::Array(
+            (0..rng.below(4))
+                .map(|_| gen_any_value(rng, depth + 1))
+                .collect(),
+        ),
+        8 => MValue::Map(
+            (0..rng.below(3))
+                .map(|i| (MValue::Int(i as i128), gen_any_value(rng, depth + 1)))
+                .collect(),
+        ),
+        _ => MValue::Tag(
+            *rng.pick(&[0u64, 1, 2, 24, 32, 37, 55799]),
+            Box::new(gen_any_value(rng, depth + 1)),
+        ),
     }
 }
 
 pub fn value_by_idx(i: usize) -> HResult<MValue> {
-    value_palette().get(i).cloned().ok_or_else(|| crate::trace::HarnessError(format!("value palette index {} out of range", i)))
+    value_palette().get(i).cloned().ok_or_else(|| {
+        crate::trace::HarnessError(format!("value palette index {} out of range", i))
+    })
 }
 
 /// A header argument is either a palette index (int) or the reference CBOR encoding of an
@@ -103,10 +133,19 @@ pub fn header_from_arg(step: &Step, i: usize) -> HResult<MHeader> {
     match step.args.get(i) {
         Some(Arg::I(_)) => header_by_idx(step.usize(i)?),
         Some(Arg::B(b)) => {
-            let it = crate::refcbor::read_exact(b).map_err(|e| crate::trace::HarnessError(format!("header argument is not CBOR: {:?}", e)))?;
-            MHeader::from_item(&it).ok_or_else(|| crate::trace::HarnessError("header argument has a shape the harness does not model".into()))
+            let it = crate::refcbor::read_exact(b).map_err(|e| {
+                crate::trace::HarnessError(format!("header argument is not CBOR: {:?}", e))
+            })?;
+            MHeader::from_item(&it).ok_or_else(|| {
+                crate::trace::HarnessError(
+                    "header argument has a shape the harness does not model".into(),
+                )
+            })
         }
-        other => herr(format!("step {}: arg {} should be a header, got {:?}", step.name, i, other)),
+        other => herr(format!(
+            "step {}: arg {} should be a header, got {:?}",
+            step.name, i, other
+        )),
     }
 }
 
@@ -126,7 +165,11 @@ pub fn gen_header_arg(rng: &mut Rng) -> Arg {
 
 /// Signature descriptor as three args: protected header idx, unprotected header idx, signature bytes.
 pub fn gen_sig_args(rng: &mut Rng) -> Vec<Arg> {
-    vec![gen_template_protected_arg(rng), gen_header_arg(rng), Arg::B(bytes_palette()[pick_small_bytes_idx(rng)].clone())]
+    vec![
+        gen_template_protected_arg(rng),
+        gen_header_arg(rng),
+        Arg::B(bytes_palette()[pick_small_bytes_idx(rng)].clone()),
+    ]
 }
 
 /// Protected header of a signature / recipient template.  A template is either built in memory
@@ -136,9 +179,16 @@ pub fn gen_sig_args(rng: &mut Rng) -> Vec<Arg> {
 pub fn protected_from_arg(step: &Step, i: usize) -> HResult<MProtected> {
     let h = header_from_arg(step, i)?;
     if let Some(Arg::B(b)) = step.args.get(i) {
-        let reference = if h.is_empty() { Vec::new() } else { crate::refcbor::encode(&h.to_item()) };
+        let reference = if h.is_empty() {
+            Vec::new()
+        } else {
+            crate::refcbor::encode(&h.to_item())
+        };
         if *b != reference {
-            return Ok(MProtected { original: Some(b.clone()), header: h });
+            return Ok(MProtected {
+                original: Some(b.clone()),
+                header: h,
+            });
         }
     }
     Ok(MProtected::built(h))
@@ -155,7 +205,15 @@ pub fn gen_template_protected_arg(rng: &mut Rng) -> Arg {
                 let h = crate::traffic::gen_header(rng, &crate::traffic::GenCfg::small(), 1);
                 let it = h.to_item();
                 let mut out = Vec::new();
-                crate::refcbor::write_item(&it, &mut out, &mut crate::refcbor::Seeded { rng, widen: 6, indef: 6 });
+                crate::refcbor::write_item(
+                    &it,
+                    &mut out,
+                    &mut crate::refcbor::Seeded {
+                        rng,
+                        widen: 6,
+                        indef: 6,
+                    },
+                );
                 if let Ok(back) = crate::refcbor::read_exact(&out) {
                     if MHeader::from_item(&back).as_ref() == Some(&h) {
                         return Arg::B(out);
@@ -181,7 +239,11 @@ pub fn gen_recipient_args(rng: &mut Rng) -> Vec<Arg> {
     vec![
         gen_template_protected_arg(rng),
         gen_header_arg(rng),
-        if rng.chance(1, 4) { Arg::S("none".into()) } else { Arg::B(bytes_palette()[pick_small_bytes_idx(rng)].clone()) },
+        if rng.chance(1, 4) {
+            Arg::S("none".into())
+        } else {
+            Arg::B(bytes_palette()[pick_small_bytes_idx(rng)].clone())
+        },
         Arg::I(if rng.chance(1, 4) { 1 } else { 0 }),
     ]
 }
@@ -193,7 +255,10 @@ pub fn recipient_from_args(step: &Step, at: usize) -> HResult<MRecipient> {
         unprotected: header_from_arg(step, at + 1)?,
         ciphertext: opt_bytes_from(step, at + 2)?,
         recipients: if nested == 1 {
-            vec![MRecipient { ciphertext: Some(vec![0x4e]), ..Default::default() }]
+            vec![MRecipient {
+                ciphertext: Some(vec![0x4e]),
+                ..Default::default()
+            }]
         } else {
             vec![]
         },
@@ -203,10 +268,26 @@ pub fn recipient_from_args(step: &Step, at: usize) -> HResult<MRecipient> {
 pub fn party_palette() -> Vec<MPartyInfo> {
     vec![
         MPartyInfo::default(),
-        MPartyInfo { identity: Some(b"id".to_vec()), nonce: None, other: None },
-        MPartyInfo { identity: None, nonce: Some(MNonce::Bytes(vec![1, 2])), other: None },
-        MPartyInfo { identity: None, nonce: Some(MNonce::Integer(-5)), other: Some(vec![]) },
-        MPartyInfo { identity: Some(vec![]), nonce: Some(MNonce::Integer(i64::MAX)), other: Some(b"o".to_vec()) },
+        MPartyInfo {
+            identity: Some(b"id".to_vec()),
+            nonce: None,
+            other: None,
+        },
+        MPartyInfo {
+            identity: None,
+            nonce: Some(MNonce::Bytes(vec![1, 2])),
+            other: None,
+        },
+        MPartyInfo {
+            identity: None,
+            nonce: Some(MNonce::Integer(-5)),
+            other: Some(vec![]),
+        },
+        MPartyInfo {
+            identity: Some(vec![]),
+            nonce: Some(MNonce::Integer(i64::MAX)),
+            other: Some(b"o".to_vec()),
+        },
     ]
 }
 
@@ -214,14 +295,32 @@ pub fn supp_pub_palette() -> Vec<MSuppPubInfo> {
     let hs = header_palette();
     vec![
         MSuppPubInfo::default(),
-        MSuppPubInfo { key_data_length: 128, protected: MProtected::built(hs[1].clone()), other: None },
-        MSuppPubInfo { key_data_length: u64::MAX, protected: MProtected::built(hs[0].clone()), other: Some(vec![]) },
-        MSuppPubInfo { key_data_length: 256, protected: MProtected::built(hs[18].clone()), other: Some(b"other".to_vec()) },
+        MSuppPubInfo {
+            key_data_length: 128,
+            protected: MProtected::built(hs[1].clone()),
+            other: None,
+        },
+        MSuppPubInfo {
+            key_data_length: u64::MAX,
+            protected: MProtected::built(hs[0].clone()),
+            other: Some(vec![]),
+        },
+        MSuppPubInfo {
+            key_data_length: 256,
+            protected: MProtected::built(hs[18].clone()),
+            other: Some(b"other".to_vec()),
+        },
     ]
 }
 
 pub fn ctx_name(i: usize) -> &'static str {
-    ["Encrypt", "Encrypt0", "EncRecipient", "MacRecipient", "RecRecipient"][i]
+    [
+        "Encrypt",
+        "Encrypt0",
+        "EncRecipient",
+        "MacRecipient",
+        "RecRecipient",
+    ][i]
 }
 
 pub fn ctx_from_name(s: &str) -> HResult<coset::EncryptionContext> {
